@@ -16,7 +16,7 @@
 From Coq Require Import List ZArith QArith Qcanon Bool.
 From Inovesa Require Import Base.FieldKit Base.Float32 Gen.Gen_Coeffs Gen.Gen_FPStencil Model.Kick Model.RF
   Model.FokkerPlanck Model.StepKinds Gen.Gen_StepOrder Model.RunKinds Gen.Gen_WakeUpdate Gen.Gen_Identity
-  Model.WakeUpdate.
+  Model.Copy Model.WakeUpdate.
 Import ListNotations.
 Local Open Scope Z_scope.
 
@@ -80,8 +80,19 @@ Definition fp_inside (P : run_par) : Prop :=
 (** ** list front-end (what the extracted driver runs): every map materialises its grid *)
 Definition grid_list (nb n : Z) (G : Z -> Qc) : list Qc := map G (zrange (nb * n * n)).
 
+(** one map on a list; the wake kick's table is materialised once per application (as update() does) instead of
+    being re-derived for every cell *)
+Definition apply_smap_list (P : run_par) (nb : Z) (wk : option (Z -> Qc)) (m : smap) (data : list Qc) : list Qc :=
+  let n := rp_n P in let it := rp_it P in
+  match m, wk with
+  | MWake, Some wp =>
+      let T := map (wake_table n nb it wp) (zrange (nb * n * it)) in
+      grid_list nb n (apply_y n nb it (getH T) (getQ data))
+  | _, _ => grid_list nb n (apply_smap P nb wk m (getQ data))
+  end.
+
 Definition apply_maps_list (P : run_par) (nb : Z) (wk : option (Z -> Qc)) (order : list smap) (data : list Qc) : list Qc :=
-  fold_left (fun acc m => grid_list nb (rp_n P) (apply_smap P nb wk m (getQ acc))) order data.
+  fold_left (fun acc m => apply_smap_list P nb wk m acc) order data.
 
 Fixpoint run_list (P : run_par) (nb : Z) (wks : list (option (list Qc))) (data : list Qc) : list Qc :=
   match wks with
